@@ -137,6 +137,14 @@ def aliasRoots (is : List Instr) : List Nat :=
     let r : Nat := match i with
       | .un .pos a => roots.getD a a
       | .ite _ t f => if roots.getD t t == roots.getD f f then roots.getD t t else k
+      -- `PrivVal(v).val()` (also Pub/Const and the boolean constructors) hands back the very int object `v` it was built from
+      | .call .val a [] =>
+        match is[a]? with
+        | some (.mk kind l) =>
+          match kind with
+          | .priv | .pub | .const | .privb | .pubb => roots.getD l l
+          | _ => k
+        | _ => k
       | _ => k
     roots ++ [r]) []
 
